@@ -12,7 +12,7 @@ RULE = ("Cases: (stat) label vectors with K<=12 cycles of length 1..20 and -1 ga
         "(align) monotone wrapped phases of 2-8 whole cycles of 8..400 samples x quantity g_c(phase) "
         "(linear, sin, cos2, cubic polynomial; optionally a different affine transform per cycle) x npoints "
         "2..64 x interp_kind in {linear,quadratic,cubic} x cycles from the phase / explicit vector / Cycles "
-        "object; (bin) phases in [0,2pi) x nbins 2..64 x 1-3 value columns. Oracle: direct per-label "
+        "object / a shifted labelling whose cycles contain the phase wrap; (bin) phases in [0,2pi) x nbins 2..64 x 1-3 value columns. Oracle: direct per-label "
         "computation; phase_align column c must equal g_c on the bin-centre grid (<=1e-9 for linear g, "
         "else within a classical interpolation bound on grid points inside the cycle's sampled range); "
         "bin b == mean of samples with e_b<=phase<e_b+1, NaN iff empty, for every b. Non-trivial: (stat) "
@@ -122,7 +122,7 @@ def align_case(draw):
             'percycle': draw(st.booleans()),
             'ab': [(draw(st.sampled_from([1.0, -2.0, 0.5, 3.0])), draw(st.sampled_from([0.0, 1.0, -4.0])))
                    for _ in range(nc)],
-            'cycles_arg': draw(st.sampled_from(['none', 'vector', 'subset_vector', 'object'])),
+            'cycles_arg': draw(st.sampled_from(['none', 'vector', 'subset_vector', 'object', 'shifted_vector'])),
             'drop': draw(st.integers(0, nc - 1))}
 
 
@@ -152,6 +152,19 @@ def oracle_align(case, rec):
         for j, c in enumerate(cols):
             v[bounds[c]:bounds[c + 1]] = j
         kw['cycles'] = v
+    elif case['cycles_arg'] == 'shifted_vector':
+        # a caller's own labelling (e.g. trough to trough): every labelled cycle runs from the middle of one phase cycle to
+        # the middle of the next, so it contains the 2pi -> 0 wrap and its phase samples are not in increasing order.
+        # The quantity is the same function of phase for all cycles, so each column must still be g on the grid.
+        ab = [(1.0, 0.0)] * nc
+        x = g(ip)
+        v = np.zeros(ip.size, dtype=int) - 1
+        mids = [(bounds[c] + bounds[c + 1]) // 2 for c in range(nc)]
+        cols = list(range(nc - 1))
+        for j in cols:
+            v[mids[j]:mids[j + 1]] = j
+        kw['cycles'] = v
+        shifted_bounds = [(mids[j], mids[j + 1]) for j in cols]
     elif case['cycles_arg'] == 'object':
         try:
             kw['cycles'] = emd.cycles.Cycles(ip.copy())
@@ -170,7 +183,10 @@ def oracle_align(case, rec):
     worst = 0.0
     for j, c in enumerate(cols):
         a, b = ab[c]
-        ph = ip[bounds[c]:bounds[c + 1]]
+        if case['cycles_arg'] == 'shifted_vector':
+            ph = np.sort(ip[shifted_bounds[j][0]:shifted_bounds[j][1]])
+        else:
+            ph = ip[bounds[c]:bounds[c + 1]]
         exp = a * g(egrid) + b
         err = np.abs(avg[:, j] - exp)
         if case['g'] == 'linear':
